@@ -195,5 +195,29 @@ func CheckReader(rd ValidatorReader, u *Universe) []InvViolation {
 	if a, b := addrSet(rd.GetValidators().List()), addrSet(existing); a != b {
 		out = append(out, InvViolation{"index-mismatch-reader", fmt.Sprintf("GetValidators() lists {%s}, existing validator records are {%s}", a, b)})
 	}
+	// the positions consensus uses as voter indexes: GetIndex and GetByIndex must be inverse to each
+	// other over the list, every listed validator exactly once, nothing beyond the end
+	vs := rd.GetValidators()
+	list := vs.List()
+	seen := map[string]bool{}
+	for i, v := range list {
+		m := v.MainAddress()
+		if seen[string(m[:])] {
+			out = append(out, InvViolation{"index-positions-reader", fmt.Sprintf("validator %x is listed twice", m[:4])})
+		}
+		seen[string(m[:])] = true
+		if idx, ok := vs.GetIndex(m); !ok || idx != i {
+			out = append(out, InvViolation{"index-positions-reader", fmt.Sprintf("GetIndex(%x) = (%d,%v), the validator sits at position %d of the list", m[:4], idx, ok, i)})
+		}
+		if w, ok := vs.GetByIndex(i); !ok || w == nil || w.MainAddress() != m {
+			out = append(out, InvViolation{"index-positions-reader", fmt.Sprintf("GetByIndex(%d) does not return the validator %x listed at that position", i, m[:4])})
+		}
+	}
+	if _, ok := vs.GetByIndex(len(list)); ok {
+		out = append(out, InvViolation{"index-positions-reader", fmt.Sprintf("GetByIndex(%d) succeeds beyond the end of a list of %d", len(list), len(list))})
+	}
+	if _, ok := vs.GetByIndex(-1); ok {
+		out = append(out, InvViolation{"index-positions-reader", "GetByIndex(-1) succeeds"})
+	}
 	return out
 }
